@@ -50,6 +50,7 @@ type ZZEnv struct {
 	res       []*ZZNode
 	resMemo   map[*ZZNode]*ZZNode
 	neMemo    map[zzPair]bool
+	table     zzTable
 }
 
 // zzSelInt returns xs[i] for a symbolic i (branch-free).
@@ -195,6 +196,13 @@ func zzMerge(c bool, b, a *ZZNode) *ZZNode {
 		Ref:  vn.Ite(c, b.Ref, a.Ref),
 		D:    a.D,
 	}
+	if a.T != nil && b.T != nil {
+		n.T = vn.IteAny(c, b.T, a.T).(SessionType)
+	} else if a.T != nil {
+		n.T = a.T
+	} else {
+		n.T = b.T
+	}
 	if b.D > n.D {
 		n.D = b.D
 	}
@@ -324,4 +332,48 @@ func (e *ZZEnv) Equal(x, y *ZZNode, n zzTable, d int) bool {
 		e.neMemo = map[zzPair]bool{}
 	}
 	return vn.Not(e.ne(x, y, n))
+}
+
+// ---------- exported helpers for the typing-rule harnesses (package process) ----------
+
+type ZZTable = zzTable
+
+func ZZMerge(c bool, b, a *ZZNode) *ZZNode { return zzMerge(c, b, a) }
+
+// Unf: the structural view of x (x itself, or the body its name stands for).
+func (e *ZZEnv) Unf(x *ZZNode) *ZZNode {
+	if e.K == 0 {
+		return x
+	}
+	return e.resolve(x)
+}
+
+func ZZRefDown(m, k int) bool   { return zzRefDown(m, k) }
+func ZZRefWeaken(m int) bool    { return zzRefWeaken(m) }
+func ZZRefContract(m int) bool  { return zzRefContract(m) }
+func ZZMode(sel int) Modality   { return zzMode(sel, 4) }
+func ZZLabelName(l int) string  { return zzLabelName(l) }
+
+const (
+	ZZUnit  = zzUnit
+	ZZLabel = zzLabel
+	ZZSend  = zzSend
+	ZZRecv  = zzRecv
+	ZZSel1  = zzSel1
+	ZZSel2  = zzSel2
+	ZZBra1  = zzBra1
+	ZZBra2  = zzBra2
+	ZZUp    = zzUp
+	ZZDown  = zzDown
+)
+
+// EqualNodes: reference type equality with the table computed once per environment.
+func (e *ZZEnv) EqualNodes(x, y *ZZNode) bool {
+	if e.table == nil {
+		e.table = e.Fixpoint()
+	}
+	if e.neMemo == nil {
+		e.neMemo = map[zzPair]bool{}
+	}
+	return vn.Not(e.ne(x, y, e.table))
 }
